@@ -240,6 +240,20 @@ func runDisk() {
 				defer wg.Done()
 				lr := proto.NewRng(seeds[c])
 				<-start
+				if c == fThreads-1 && round%3 != 2 {
+					// one client only issues barriers (they change no block, so they are not part of the checked history):
+					// a flush running next to reads and writes must not hide a completed write from a later read
+					for k := 0; k < fOps; k++ {
+						func() {
+							defer func() { recover() }()
+							d.Barrier()
+						}()
+						if k%4 == 3 {
+							time.Sleep(time.Duration(lr.Intn(200)) * time.Microsecond)
+						}
+					}
+					return
+				}
 				for k := 0; k < fOps; k++ {
 					in := diskIn{Addr: hot + uint64(lr.Intn(2))} // two hot addresses
 					switch lr.Intn(8) {
